@@ -3,11 +3,11 @@ package main
 import (
 	"bytes"
 	"encoding/json"
-	"os/exec"
-	"regexp"
 	"fmt"
 	"os"
+	"os/exec"
 	"path/filepath"
+	"regexp"
 	"sort"
 	"strconv"
 	"strings"
@@ -623,9 +623,9 @@ func writeEvidence(id string, opts checkOpts, eng *Engine, reports []*FuncReport
 	}
 	cov := map[string]interface{}{
 		"obligations": total, "discharged": disch,
-		"checker_cmd":  "bin/gocv check " + id + " --tier " + opts.tier,
-		"trusted_base": trustedBase,
-		"explanation":  meta.Explanation,
+		"checker_cmd":              "bin/gocv check " + id + " --tier " + opts.tier,
+		"trusted_base":             trustedBase,
+		"explanation":              meta.Explanation,
 		"functions_under_contract": fns,
 		"obligations_by_class":     byClass,
 		"discharged_by_backend":    solverCount,
